@@ -78,33 +78,7 @@ func checkC05(c *Ctx) {
 	}
 	open := lc.openFn
 	// ---------------- R1
-	var via []ssa.Instruction
-	for _, ci := range Calls(open) {
-		switch calleeName(ci.Common()) {
-		case "SeatManager.InitPositions", "SeatManager.RotatePositions":
-			via = append(via, ci)
-		}
-	}
-	n1 := 0
-	for _, ss := range p.FieldStores("TablePlayerState", "IsParticipated") {
-		if ss.Fn != open {
-			continue
-		}
-		n1++
-		where := p.InstrPos(ss.Instr)
-		pl := ss.Addr.Strip().Args[0].Strip()
-		okLoop := pl.Kind == "index" && pl.Args[0].Strip().IsField("TableState", "PlayerStates") && fullRange(pl.Args[1], func(x *Sym) bool { return x.String() == pl.Args[0].Strip().String() })
-		c.Check(okLoop, "R1", "dealt-in:full-loop", where, "loop over the full player list", "the dealt-in flag is not refreshed for every player of the table")
-		v := ss.Val.Strip()
-		okSrc := v.Kind == "extract" && v.Name == "0" && v.Args[0].IsCall("SeatManager.IsPlayerActive") &&
-			v.Args[0].Strip().Args[1].Strip().IsField("TablePlayerState", "PlayerID") && v.Args[0].Strip().Args[1].Strip().Args[0].Strip().String() == pl.String()
-		c.Check(okSrc, "R1", "dealt-in:source", where, "IsParticipated ← IsPlayerActive(same player's id)", "the dealt-in flag is copied from "+v.String()+", not from the seat manager's eligibility answer for that same player")
-		c.Check(len(via) >= 2 && passesOneOf(ss.Instr, via), "R1", "dealt-in:after-rotation", where, "only after positions were initialised or rotated", "the dealt-in flags can be computed before this hand's positions were initialised/rotated")
-		// on the clone
-		root := ss.Addr.Root()
-		c.Check(root.Kind == "extract" && root.Args[0].IsCall("Table.Clone"), "R1", "dealt-in:on-clone", where, "written on the clone", "the dealt-in flag is written on the live table before the open step is known to succeed")
-	}
-	c.Min("R1", "dealt-in flag stores in the open step", n1, 1)
+	checkDealtInCopy(c, "R1")
 	// who-may-write the dealt-in flag: open step and continue step (both from the seat
 	// manager's eligibility answer for that same player), false at construction
 	for _, ss := range p.FieldStores("TablePlayerState", "IsParticipated") {
@@ -133,6 +107,13 @@ func checkC05(c *Ctx) {
 	c.Check(okOld && len(errRets) >= 4, "R1", "open-failures-return-old-table", p.Pos(open.Pos()), fmt.Sprintf("%d error exits return the old table", len(errRets)), d)
 
 	// ---------------- R7
+	var via []ssa.Instruction
+	for _, ci := range Calls(open) {
+		switch calleeName(ci.Common()) {
+		case "SeatManager.InitPositions", "SeatManager.RotatePositions":
+			via = append(via, ci)
+		}
+	}
 	memo := map[*ssa.Function]map[string]bool{}
 	for _, v := range via {
 		call, ok := v.(*ssa.Call)
@@ -353,7 +334,7 @@ func checkC05(c *Ctx) {
 	}
 
 	// the waiting arc is OPEN at both ends: (dealer, bb) exclusive, also across the wrap
-	checkWaitingArc(c, smT)
+	checkWaitingArc(c, "R5", smT)
 
 	// the waiting predicate's wrap-around arithmetic (shared rule with C04.R1)
 	checkWrapCounters(c, "R5", func(f *ssa.Function) bool { return inSeatManagerPkg(p, f) }, 2)
@@ -442,11 +423,11 @@ func appendedElem(p *Prog, ci ssa.CallInstruction) *Sym {
 // checkWaitingArc (C05.R5): the helper that decides "strictly between dealer and BB":
 // the wrap-around loop runs from dealer+1 up to, but excluding, bb+MaxSeat, and every
 // comparison that involves the target seat is strict (or an equality with the reduced counter).
-func checkWaitingArc(c *Ctx, smT *types.Named) {
+func checkWaitingArc(c *Ctx, rule string, smT *types.Named) {
 	p := c.P
 	pred := p.Method(smT, "IsPlayerBetweenDealerBB")
 	if pred == nil {
-		c.Bad("R5", "waiting-arc", "-", "waiting predicate not found")
+		c.Bad(rule, "waiting-arc", "-", "waiting predicate not found")
 		return
 	}
 	var arc *ssa.Function
@@ -456,7 +437,7 @@ func checkWaitingArc(c *Ctx, smT *types.Named) {
 		}
 	}
 	if arc == nil {
-		c.Bad("R5", "waiting-arc", p.Pos(pred.Pos()), "the waiting predicate does not delegate to a (dealer, bb, target) helper")
+		c.Bad(rule, "waiting-arc", p.Pos(pred.Pos()), "the waiting predicate does not delegate to a (dealer, bb, target) helper")
 		return
 	}
 	dealer, bb, target := arc.Params[1], arc.Params[2], arc.Params[3]
@@ -487,10 +468,10 @@ func checkWaitingArc(c *Ctx, smT *types.Named) {
 			nLoop++
 			okFirst := sum(ind.First, isP(dealer), isOne)
 			okBound := ind.Bound != nil && ind.Step == 1 && (!ind.Incl && ind.Op == token.LSS && sum(ind.Bound, isP(bb), isMax))
-			c.Check(okFirst && okBound, "R5", "waiting-arc:wrap-loop", p.InstrPos(ind.Phi), "i from dealer+1 while i < bb+MaxSeat", fmt.Sprintf("the wrap-around scan of the waiting predicate does not cover exactly the seats strictly between dealer and big blind (first=%s bound=%v inclusive=%v): the dealer or the big-blind seat itself counts as 'between'", ind.First, ind.Bound, ind.Incl))
+			c.Check(okFirst && okBound, rule, "waiting-arc:wrap-loop", p.InstrPos(ind.Phi), "i from dealer+1 while i < bb+MaxSeat", fmt.Sprintf("the wrap-around scan of the waiting predicate does not cover exactly the seats strictly between dealer and big blind (first=%s bound=%v inclusive=%v): the dealer or the big-blind seat itself counts as 'between'", ind.First, ind.Bound, ind.Incl))
 		}
 	}
-	c.Min("R5", "wrap-around loops in the waiting arc helper", nLoop, 1)
+	c.Min(rule, "wrap-around loops in the waiting arc helper", nLoop, 1)
 	// comparisons involving the target seat
 	bad := ""
 	nCmp := 0
@@ -516,5 +497,46 @@ func checkWaitingArc(c *Ctx, smT *types.Named) {
 			}
 		}
 	}
-	c.Check(bad == "" && nCmp >= 3, "R5", "waiting-arc:strict", where, "target compared strictly with dealer and bb", "the waiting predicate compares the target seat non-strictly ("+bad+"): the dealer or big-blind seat itself would count as 'between'")
+	c.Check(bad == "" && nCmp >= 3, rule, "waiting-arc:strict", where, "target compared strictly with dealer and bb", "the waiting predicate compares the target seat non-strictly ("+bad+"): the dealer or big-blind seat itself would count as 'between'")
+}
+
+// checkDealtInCopy: at open, every player's dealt-in flag is copied from the seat manager's
+// eligibility answer for that player, on the clone, after this hand's positions were
+// initialised or rotated. Shared by C05.R1, C06.R9 and C02.R7.
+func checkDealtInCopy(c *Ctx, rule string) {
+	p := c.P
+	lc := p.lifecycle()
+	open := lc.openFn
+	if open == nil {
+		c.Bad(rule, "dealt-in:anchors", "-", "open step not found")
+		return
+	}
+	// ---------------- R1
+	var via []ssa.Instruction
+	for _, ci := range Calls(open) {
+		switch calleeName(ci.Common()) {
+		case "SeatManager.InitPositions", "SeatManager.RotatePositions":
+			via = append(via, ci)
+		}
+	}
+	n1 := 0
+	for _, ss := range p.FieldStores("TablePlayerState", "IsParticipated") {
+		if ss.Fn != open {
+			continue
+		}
+		n1++
+		where := p.InstrPos(ss.Instr)
+		pl := ss.Addr.Strip().Args[0].Strip()
+		okLoop := pl.Kind == "index" && pl.Args[0].Strip().IsField("TableState", "PlayerStates") && fullRange(pl.Args[1], func(x *Sym) bool { return x.String() == pl.Args[0].Strip().String() })
+		c.Check(okLoop, rule, "dealt-in:full-loop", where, "loop over the full player list", "the dealt-in flag is not refreshed for every player of the table")
+		v := ss.Val.Strip()
+		okSrc := v.Kind == "extract" && v.Name == "0" && v.Args[0].IsCall("SeatManager.IsPlayerActive") &&
+			v.Args[0].Strip().Args[1].Strip().IsField("TablePlayerState", "PlayerID") && v.Args[0].Strip().Args[1].Strip().Args[0].Strip().String() == pl.String()
+		c.Check(okSrc, rule, "dealt-in:source", where, "IsParticipated ← IsPlayerActive(same player's id)", "the dealt-in flag is copied from "+v.String()+", not from the seat manager's eligibility answer for that same player")
+		c.Check(len(via) >= 2 && passesOneOf(ss.Instr, via), rule, "dealt-in:after-rotation", where, "only after positions were initialised or rotated", "the dealt-in flags can be computed before this hand's positions were initialised/rotated")
+		// on the clone
+		root := ss.Addr.Root()
+		c.Check(root.Kind == "extract" && root.Args[0].IsCall("Table.Clone"), rule, "dealt-in:on-clone", where, "written on the clone", "the dealt-in flag is written on the live table before the open step is known to succeed")
+	}
+	c.Min(rule, "dealt-in flag stores in the open step", n1, 1)
 }
